@@ -306,6 +306,18 @@ def standard_check(ctx, spec):
         "trusted_base": KERNEL_TB + TIE_TB + spec.get("trusted_base", []),
     })
     ctx.assumptions += spec.get("assumptions", [])
+    if ctx.tier == "thorough" and ok_proof:
+        # independent re-check of the compiled statement file and everything it depends on
+        rc, outc, dtc = run(["coqchk", "-silent", "-o", "-Q", os.path.join(COQ, "theories"), "SL", f"SL.Props.{mod}"],
+                            cwd=COQ, timeout=3000)
+        m = re.search(r"\* Axioms:\s*(.*?)\n\s*\n", outc, re.S)
+        axioms = m.group(1).strip() if m else "?"
+        ctx.cov["coqchk"] = {"exit": rc, "axioms": axioms, "wall_s": round(dtc, 1)}
+        if rc != 0 or axioms != "<none>":
+            extra = [a for a in re.findall(r"[A-Za-z0-9_.']+", axioms) if a not in spec.get("allow_axioms", ())]
+            if rc != 0 or (axioms != "<none>" and extra):
+                problems.append(f"coqchk: exit {rc}, axioms: {axioms}")
+                ctx.cov["discharged"] = 0
     ctx.cov["prove_wall_s"] = round(time.time() - ctx.t0, 2)
     # BUILD
     t_b = time.time()
